@@ -142,6 +142,10 @@ def tlc_must_pass(r, what):
         raise ToolError(f"TLC produced no statistics in {what}:\n{r['out'][-3000:]}")
 
 
+class Hang(Exception):
+    """A driver script did not finish inside the code under test (watchdog of the harness): data."""
+
+
 class Aborted(Exception):
     """The code under test killed the harness process (abort / signal): data, not a tool error."""
 
@@ -151,6 +155,8 @@ def run_harness(args, timeout=1800):
     if p.returncode < 0 or p.returncode in (134, 139):
         raise Aborted(f"harness {args[0]} was killed from inside the code under test (rc={p.returncode}): "
                       f"{p.stderr[-1500:]}")
+    if p.returncode == 4:
+        raise Hang(p.stderr[-500:])
     if p.returncode != 0:
         raise ToolError(f"harness {' '.join(args[:1])} failed rc={p.returncode}: {p.stderr[-3000:]}")
     return p.stdout
